@@ -605,6 +605,12 @@ func PreprocessDeclarationsPrelude(baseURL string, declarations []pa.Compound, p
 			if err != nil {
 				return nil, err
 			}
+			// Keep the order of appearance: the declarations written before
+			// the nested rule come before it.
+			if len(ownDecls) > 0 {
+				out = append(out, KeyedDeclarations{selectors, ownDecls})
+				ownDecls = nil
+			}
 			out = append(out, contents...)
 		}
 
